@@ -111,6 +111,16 @@ def run(ctx):
                                                          "issue": "coverage below the requested level", "coverage": cov, "required": need,
                                                          "limits_by_x": [table[(N, n, alt, cl, x)] for x in range(n + 1)]}, site="hypergeom_conf_interval")
                                 break
+    # the same calls again in random order, interleaved across alternatives / levels: results must not depend on history
+    keys = list(table)
+    ctx.rng.shuffle(keys)
+    for (N, n, alt, cl, x) in keys[:ctx.n(1500, 20000)]:
+        r = guarded(utils.hypergeom_conf_interval, n, x, N, cl, alt)
+        ctx.count("shuffled-repeat-calls")
+        if r[0] != "ok" or (int(r[1][0]), int(r[1][1])) != table[(N, n, alt, cl, x)]:
+            ctx.violation("oracle", {"call": "hypergeom_conf_interval", "n": n, "x": x, "N": N, "cl": cl, "alternative": alt,
+                                     "issue": "the same call returns a different interval later in the process (result depends on the call history)",
+                                     "first": list(table[(N, n, alt, cl, x)]), "later": str(r[1:])[:80]}, site="hypergeom_conf_interval")
     outs = run_model(ops)
     agree = True
     for o, (det, got) in zip(outs, meta):
